@@ -38,8 +38,13 @@ let verb_name (v : M.verb) : string = match v with
   | M.VMail -> "MAIL" | M.VRcpt -> "RCPT" | M.VData -> "DATA" | M.VEod -> "EOD"
 
 let decision_of (s : string) : M.decision =
-  match s with
+  let base = (match String.index_opt s ':' with Some i -> String.sub s 0 i | None -> s) in
+  match base with
   | "ok" -> M.DOk | "drop" -> M.DDrop | "stall" -> M.DStall
+  (* DATA position: 354, then the server stops reading: ws[:n] the client's writes block (n = bytes still accepted,
+     harness only), wf[:n] they fail; wsl / wfl: short message, nothing is written before the final flush *)
+  | "ws" -> M.DWrite (false, false) | "wsl" -> M.DWrite (false, true)
+  | "wf" -> M.DWrite (true, false) | "wfl" -> M.DWrite (true, true)
   | _ ->
     let n = String.length s in
     if n > 0 && s.[n - 1] = 'b' then M.DReply (n_of_int (int_of_string (String.sub s 0 (n - 1))), M.TxB64)
